@@ -250,6 +250,19 @@ func init() {
 	})
 }
 
+func init() {
+	props = append(props, prop{
+		ID: "C16", Title: "config: only valid current-revision updates take effect, same on all nodes", Level: "exploration",
+		LevelText:  "Generated sequences of POST /config (members of the configuration family, invalid TOML, current/stale/future/garbage/missing revision headers) on an in-process node, interleaved with sessions, OPER attempts with the old and new passwords, GLINEs by an operator, unparsable Config entries placed directly in the log, snapshots (also folding everything into the snapshot state) and restarts. A model (revision, last accepted config + GLINE bans) decides acceptance; after every action GET /config (body and revision header), the configuration in force on the node, and the configuration of a replica that replays the durable log must all agree.",
+		LevelNote:  "Updates are issued one after another (the property's quantifier). Behaviour that depends on the configuration is sampled through OPER; the rest is compared structurally (every field of config.Network).",
+		Technique:  "model-based stateful property testing (rapid) of the real HTTP handlers + raft + FSM with a replica-agreement oracle",
+		DesignRef:  "4/C16",
+		Rule:       "case = 8-40 generated actions; non-trivial = at least one accepted update, one rejected for its revision, one invalid TOML, and a restart after an accepted update; distinct = hash of the action list",
+		Assumptions: []string{"configuration posts are issued one after another", "single voter raft in-process"},
+		Units:      []unit{nodeUnit("node", "^TestVerifC16$", 480, 10000)},
+	})
+}
+
 // notApplicable lists properties that are not claimed (yet), with the reason.
 var notApplicable = map[string]string{}
 
